@@ -13,8 +13,17 @@ pub fn main(tier: &str, seed: u64, n_override: Option<u64>) {
     for idx in 0..n {
         let r = random_robot(&mut rng, idx, false, None);
         let k = r.bare();
-        let q = origin_joints(&mut rng, &r, PoseKind::Reachable);
-        let ns = nonsingular(&r, &q);
+        let mut q = origin_joints(&mut rng, &r, PoseKind::Reachable);
+        // a share of the cases close to (but outside) the wrist singularity: |sin q5| between 1e-3 and 2e-2, far above the solver's
+        // own 0.01 degree band (1.7e-4) and above what f64 needs (the recovered J4/J6 are off by ~1e-16 / |sin q5|)
+        let near_wrist = idx % 5 == 0;
+        if near_wrist {
+            let mut m = r.to_model(&q);
+            let eps = dy(rng.range(1.2e-3, 2e-2), 30) * if rng.bool() { 1.0 } else { -1.0 };
+            m[4] = if rng.bool() { eps } else { PI - eps };
+            q = r.from_model(&m);
+        }
+        let ns = nonsingular_w(&r, &q, if near_wrist { 1e-3 } else { 0.02 });
         let pose = pose_of(&r, &q);
         let _ = H::take_trace();
         let sols = k.inverse(&pose);
